@@ -77,7 +77,7 @@ def items(tier, seed):
     # the statement requires a full-support prior; the wrapper's default prior is uniform over the
     # *available* actions, so only MDPs whose states all offer the whole action list are in scope
     j = 0
-    for it in build.enum_mdps(2, [('a', 'b')], 1, [F(-1), F(0), F(1)], [()], [build.INIT_MENU[2][2]], [F(9, 10)]):
+    for it in build.enum_mdps(2, [('a', 'b')], 1, [F(-1), F(0), F(1)], [()], [build.INIT_MENU[2][2], build.INIT_MENU[2][0]], [F(9, 10)]):
         j += 1
         if tier == 'thorough' or j % 4 == seed % 4:
             yield ('wrapper', it, j % 4, (j // 4) % 3, 0, 0)
@@ -186,7 +186,9 @@ def check_wrapper(item, r, torch, Planner, fn):
     w = WEIGHTS[wi]
     r.count('states')
     li = wi % 6
-    mdp = build.SpecMDP(spec, ['int', 'rev', 'str', 'mix', 'tup', 'fd'][li], ['ab', 'rev', 'ab', 'mix', 'rev', 'fd'][li])
+    # explicit state/action lists on every other item: states the initial distribution never reaches are part of the problem too
+    mdp = build.SpecMDP(spec, ['int', 'rev', 'str', 'mix', 'tup', 'fd'][li], ['ab', 'rev', 'ab', 'mix', 'rev', 'fd'][li],
+                        explicit_lists=(prior_kind + wi) % 2 == 0)
     # prior handed to the wrapper: default (uniform over available actions), shared 1xA, or per-state SxA (rows in the
     # order of mdp.state_list / mdp.action_list); the oracle below uses exactly the rows the user passed
     nS, nA = len(mdp.state_list), len(mdp.action_list)
